@@ -79,6 +79,8 @@ type absCtx struct {
 	oparams  []string                     // oracle parameters "(name : type)" in call-site order
 	slices   []string                     // []byte parameters written in place (threaded, returned)
 	scalars  map[string]bool              // names of the scalar parameters
+	ptrSlices map[string]bool             // parameters of type *[]byte, threaded as the slice they point to
+	noJoin    map[ast.Stmt]bool           // switch statements being translated as a join (recursion guard)
 }
 
 func (a *absCtx) outVar(base, path string) (string, bool) {
@@ -203,6 +205,18 @@ func (tr *translator) absExpr(e ast.Expr) (string, bool) {
 					return s, true
 				}
 			}
+		}
+	case *ast.IndexExpr:
+		// a string variable of a translated module used as a table: rt.Hex[i]
+		if isBytesLike(tr.typeOf(e.X)) {
+			if name, mod, ok := tr.tableRef(e.X); ok {
+				return "(" + mod + name + " " + tr.expr(e.Index) + ")", true
+			}
+		}
+	case *ast.StarExpr:
+		// *e for a parameter e of type *[]byte: the slice is threaded under the name of the pointer
+		if id, ok := e.X.(*ast.Ident); ok && tr.abs.ptrSlices[id.Name] {
+			return lv(id.Name), true
 		}
 	case *ast.SelectorExpr, *ast.CallExpr:
 		if b, p, ok := tr.absPath(e); ok && p != "" {
@@ -430,6 +444,15 @@ func (tr *translator) assignedIn(n ast.Node, from token.Pos) (vars []string, eff
 					vars = append(vars, lv(e.Name))
 				}
 			}
+		case *ast.StarExpr:
+			if id, ok := e.X.(*ast.Ident); ok && tr.abs.ptrSlices[id.Name] {
+				if !seen[lv(id.Name)] {
+					seen[lv(id.Name)] = true
+					vars = append(vars, lv(id.Name))
+				}
+				return
+			}
+			fail(e, "assignment target %s inside a branch", srcOf(e))
 		case *ast.SelectorExpr:
 			if b, p, ok := tr.absPath(e); ok && p != "" {
 				if v, ok := tr.abs.outVar(b, p); ok && !seen[v] {
@@ -580,6 +603,11 @@ func (tr *translator) absStmt(list []ast.Stmt, k func() string) (string, bool) {
 			return out + rest(), true
 		}
 		if len(s.Lhs) == 1 && len(s.Rhs) == 1 && s.Tok == token.ASSIGN {
+			if st, ok := s.Lhs[0].(*ast.StarExpr); ok {
+				if id, ok := st.X.(*ast.Ident); ok && a.ptrSlices[id.Name] {
+					return "let " + lv(id.Name) + " := " + tr.expr(s.Rhs[0]) + " in\n" + rest(), true
+				}
+			}
 			// b[i] = v on a threaded slice
 			if ie, ok := s.Lhs[0].(*ast.IndexExpr); ok {
 				if id, ok := ie.X.(*ast.Ident); ok && tr.isThreadedSlice(id.Name) {
@@ -651,12 +679,16 @@ func (tr *translator) absStmt(list []ast.Stmt, k func() string) (string, bool) {
 			return "let " + pat + " := if " + cond + " then (\n" + thenS + ")\nelse (\n" + elseS + ") in\n" + rest(), true
 		}
 	case *ast.SwitchStmt:
-		if s.Init == nil && simpleBranch(s.Body) {
+		if s.Init == nil && !a.noJoin[s] && simpleBranch(s.Body) {
 			vars, _ := tr.assignedIn(s, s.Pos())
 			if len(vars) == 0 {
 				return rest(), true
 			}
 			pat, tup := tuplePat(vars)
+			if a.noJoin == nil {
+				a.noJoin = map[ast.Stmt]bool{}
+			}
+			a.noJoin[s] = true // the classic translation of this switch, with the tuple as continuation
 			inner := tr.stmts([]ast.Stmt{s}, func() string { return tup })
 			return "let " + pat + " := (\n" + inner + ") in\n" + rest(), true
 		}
@@ -769,9 +801,15 @@ func (tr *translator) absDefinition(defName, srcName string, fd *ast.FuncDecl, b
 	var params []string
 	type pslot struct{ name, ty string; base bool }
 	var slots []pslot
+	a.ptrSlices = map[string]bool{}
 	for _, v := range append(vars, oracles...) {
 		if ty, ok := tr.tryCoqType(v.typ); ok {
 			slots = append(slots, pslot{v.name, ty, false})
+			continue
+		}
+		if pt, isp := v.typ.(*types.Pointer); isp && isBytesLike(pt.Elem()) {
+			a.ptrSlices[v.name] = true
+			slots = append(slots, pslot{v.name, "list Z", false})
 			continue
 		}
 		if _, isf := under(v.typ).(*types.Signature); isf {
